@@ -264,6 +264,24 @@ fn stub_poll_ready(_p: &mut qbase::param::Parameters, _cx: &mut Context<'_>) -> 
     }
 }
 
+/// `ArcLocalStreamIds::poll_alloc_sid` (stream-count bookkeeping, C12's subject) replaced by "the
+/// first id of that direction is available": with the real one symbolic execution also walks the
+/// exhausted-limit branch (waker queue on the heap, STREAMS_BLOCKED frame), although the limit is >= 1.
+fn stub_alloc_first<BLOCKED>(l: &qbase::sid::ArcLocalStreamIds<BLOCKED>, _cx: &mut Context<'_>, dir: Dir) -> Poll<Option<StreamId>>
+where
+    BLOCKED: SendFrame<qbase::frame::StreamsBlockedFrame> + Clone + Send + 'static,
+{
+    Poll::Ready(Some(StreamId::new(l.role(), dir, 0)))
+}
+
+/// A stream that was just created (`create_sender`) has nothing written to it: `SendBuf::written()`
+/// (a fold over the stored chunks; `update_window` / `extend` call it several times per sender state)
+/// is answered with that fact. With the real fold over the heap-allocated, hence symbolic-length,
+/// chunk queue the solver runs out of its 10 GB (measured on the revise walk).
+fn stub_written_zero(_b: &SB) -> u64 {
+    0
+}
+
 /// The real constructor, as qconnection's builder calls it.
 fn new_streams<LR, RR>(role: Role, local: &Parameters<LR>, remote0: &Parameters<RR>) -> DataStreams<Sink> {
     DataStreams::new(role, local, remote0, Box::new(DemandConcurrency), Sink, tx_handle(), None)
@@ -557,6 +575,8 @@ macro_rules! c11s_streams_harness {
         #[kani::stub(crate::streams::listener::ArcListener::guard, crate::streams::listener::verif_c11s_listener::c11s_stub_listener_guard)]
         #[kani::stub(qbase::param::ArcParameters::lock_guard, qbase::param::ArcParameters::c11s_stub_lock_guard)]
         #[kani::stub(in_solver, stub_in_solver)]
+        #[kani::stub(qbase::sid::ArcLocalStreamIds::poll_alloc_sid, stub_alloc_first)]
+        #[kani::stub(crate::send::sndbuf::SendBuf::written, stub_written_zero)]
         #[kani::stub(qbase::param::Parameters::get_remote, stub_get_remote)]
         #[kani::stub(qbase::param::Parameters::remembered, stub_remembered)]
         #[kani::stub(qbase::param::Parameters::poll_ready, stub_poll_ready)]
@@ -733,14 +753,6 @@ fn revise_walk<const LOCAL: bool, const DIR_BI: bool, const NONE_OPENED: bool>()
     core::mem::forget(guard);
     core::mem::forget(mutex);
     core::mem::forget(sender);
-}
-
-/// The stream in the table was just created (`create_sender`): nothing has been written to it.
-/// `SendBuf::written()` (a fold over the stored chunks, called seven times per sender state by
-/// update_window / extend / has_remaining_mut) is answered with that fact; with the real fold over
-/// the heap-allocated (hence symbolic-length) chunk queue the solver runs out of 10 GB.
-fn stub_written_zero(_b: &SB) -> u64 {
-    0
 }
 
 macro_rules! c11s_revise_walk_harness {
